@@ -216,7 +216,7 @@ def IE.minLen (ie : IE) : Nat := if ie.len = VariableLength then 1 else ie.len
     strings are variable-length; octet arrays may be fixed or variable. -/
 def IE.WF (ie : IE) : Prop :=
   match ie.ty with
-  | .octetArray => ie.len ≤ VariableLength
+  | .octetArray => 0 < ie.len ∧ ie.len ≤ VariableLength
   | .string => ie.len = VariableLength
   | t => match t.width with
     | some w => ie.len = w
